@@ -80,12 +80,20 @@ class Line(GeoBody):
 
     def __hash__(self):
         """Return hash of a Line"""
+        # equal lines may have direction vectors of different length and
+        # sign, so hash the unit direction with a fixed sign
+        dv = self.dv.normalized()
+        for c in dv:
+            if abs(c) >= get_eps():
+                if c < 0:
+                    dv = -dv
+                break
         return hash(
             (
                 "Line",
-                round(self.dv[0], get_sig_figures()),
-                round(self.dv[1], get_sig_figures()),
-                round(self.dv[0] * self.sv[1] - self.dv[1] * self.sv[0], get_sig_figures()),
+                round(dv[0], get_sig_figures()),
+                round(dv[1], get_sig_figures()),
+                round(dv[0] * self.sv[1] - dv[1] * self.sv[0], get_sig_figures()),
             )
         )
 
